@@ -319,6 +319,13 @@ theorem closer_progress (cfg : Cfg) (hmax : 1 ≤ cfg.maxAttempts) (s : State) (
     ∃ e, driven e = true ∧ (step cfg s e).isSome = true := by
   have hS := invSched cfg s hr
   have hP := pi_reachable cfg s hr
+  -- no call holds the mutex, so no batch is waiting for its first message
+  have hfr : s.fresh = none := by
+    cases hf : s.fresh with
+    | none => rfl
+    | some b =>
+      have := (invFresh cfg s hr).freshLock (by simp [hf])
+      rw [hw] at this; cases this
   by_cases hall : s.pwIds.all (fun pw => match s.pws pw with | some P => P.qclosed | none => false) = true
   · exact ⟨.closeMarked 0, rfl, by simp only [step]; rw [if_pos ⟨hw, hall⟩]; rfl⟩
   · have : ∃ pw ∈ s.pwIds, (match s.pws pw with | some P => P.qclosed | none => false) = false := by
@@ -340,7 +347,7 @@ theorem closer_progress (cfg : Cfg) (hmax : 1 ≤ cfg.maxAttempts) (s : State) (
           | some x =>
             have := (invProg cfg hmax s hr).pw pw P hPw
             exact absurd (this.pendingCurr (by simp [hp])) (by simp [hcurr])
-        exact ⟨.detach pw b .close 0, rfl, by simp [step, stepDetach, hPw, hB, hcurr, hpend, hdet, whyOk, hc, hw]⟩
+        exact ⟨.detach pw b .close 0, rfl, by simp [step, stepDetach, hPw, hB, hcurr, hpend, hdet, whyOk, hc, hw, hfr]⟩
       | none =>
         cases hpend : P.pending with
         | some b => exact ⟨.qput P.q b true, rfl, by simp [step, hqof, hPw, hpend, hcurr, hq]⟩
@@ -368,7 +375,13 @@ theorem sender_progress (cfg : Cfg) (hmax : 1 ≤ cfg.maxAttempts) (s : State) (
       | attempting b k br => have : b ∈ P.pipe := sender_mem_pipe (by simp [hs, Sender.batch?]); rw [hpipe] at this; cases this
       | finishing b c cb => have : b ∈ P.pipe := sender_mem_pipe (by simp [hs, Sender.batch?]); rw [hpipe] at this; cases this
     exact ⟨.qget P.q none, rfl, by simp [step, hqof, hPw, hidle, hqu, hq]⟩
-  · obtain ⟨e, hint, hen⟩ := internal_enabled cfg hmax s hr pw P hPw hpipe
+  · have hfr : s.fresh = none := by
+      cases hf : s.fresh with
+      | none => rfl
+      | some b =>
+        have := (invFresh cfg s hr).freshLock (by simp [hf])
+        rw [hw] at this; cases this
+    obtain ⟨e, hint, hen⟩ := internal_enabled cfg hmax s hr hfr pw P hPw hpipe
     exact ⟨e, internalFor_driven s pw e hint, hen⟩
 
 
